@@ -1,0 +1,30 @@
+//go:build verif
+
+package middleware
+
+// Contracts for the deductive verifier in /verif (comment-only file; see /verif/DESIGN.md).
+// C20 (glue): what the interceptors hand to / take from the gRPC status machinery.
+
+//@ func UnaryServerInterceptor
+//@   props C20
+//@   purefn handler
+//@   maypanic
+//@   ensures result0 == callres0(handler, ctx, req)
+//@   ensures callres1(handler, ctx, req) == nil ==> result1 == nil
+//@   ensures callres1(handler, ctx, req) != nil && isStatusErr(callres1(handler, ctx, req)) ==> result1 == errOfStatus(statusOf(callres1(handler, ctx, req)))
+//@   ensures callres1(handler, ctx, req) != nil && !isStatusErr(callres1(handler, ctx, req)) ==> (exists st *gogostatus.Status :: result1 == errOfStatus(st) && stCode(st) == grpcCodeOf(callres1(handler, ctx, req)) && stMsg(st) == msg(callres1(handler, ctx, req)) && len(stDetails(st)) == 1 && typeis(stDetails(st)[0], *errorspb.EncodedError) && deref(stDetails(st)[0].(*errorspb.EncodedError)) == encOf(callres1(handler, ctx, req)))
+
+// lastEnc: index of the last detail that is an EncodedError, -1 if none
+//@ spec func lastEnc(ds []any, n int) int
+//@ unfold lastEnc(ds, n) = n <= 0 ? 0 - 1 : (typeis(ds[n - 1], *errorspb.EncodedError) ? n - 1 : lastEnc(ds, n - 1))
+
+//@ func UnaryClientInterceptor
+//@   props C20
+//@   purefn invoker
+//@   requires invoker != nil
+//@   requires forall i int :: 0 <= i && i < len(stDetails(statusOf(callres0(invoker, ctx, method, req, reply, cc, opts)))) && typeis(stDetails(statusOf(callres0(invoker, ctx, method, req, reply, cc, opts)))[i], *errorspb.EncodedError) ==> complete(deref(stDetails(statusOf(callres0(invoker, ctx, method, req, reply, cc, opts)))[i].(*errorspb.EncodedError)))
+//@   ensures lastEnc(stDetails(statusOf(callres0(invoker, ctx, method, req, reply, cc, opts))), len(stDetails(statusOf(callres0(invoker, ctx, method, req, reply, cc, opts))))) < 0 ==> result == callres0(invoker, ctx, method, req, reply, cc, opts)
+//@   ensures lastEnc(stDetails(statusOf(callres0(invoker, ctx, method, req, reply, cc, opts))), len(stDetails(statusOf(callres0(invoker, ctx, method, req, reply, cc, opts))))) >= 0 ==> result == decOf(deref(stDetails(statusOf(callres0(invoker, ctx, method, req, reply, cc, opts)))[lastEnc(stDetails(statusOf(callres0(invoker, ctx, method, req, reply, cc, opts))), len(stDetails(statusOf(callres0(invoker, ctx, method, req, reply, cc, opts)))))].(*errorspb.EncodedError)))
+//@   loop 1: invariant lastEnc(stDetails(st), $n) >= 0 ==> lastEnc(stDetails(st), $n) < $n && typeis(stDetails(st)[lastEnc(stDetails(st), $n)], *errorspb.EncodedError)
+//@           invariant lastEnc(stDetails(st), $n) < 0 ==> reconstituted == nil
+//@           invariant lastEnc(stDetails(st), $n) >= 0 ==> reconstituted == decOf(deref(stDetails(st)[lastEnc(stDetails(st), $n)].(*errorspb.EncodedError)))
